@@ -1,5 +1,7 @@
 import XfemmVerif.Model.PostInt
 import XfemmVerif.Model.PostIntE
+import XfemmVerif.Model.PostIntH
+import XfemmVerif.Lemmas.ComplexField
 import Mathlib.Tactic.FieldSimp
 import Mathlib.Tactic.Positivity
 import Mathlib.Tactic.Linarith
@@ -19,7 +21,10 @@ source (electrostatic `W = ½ Σ V_c q_c`; magnetostatic `W = ½ ∫A·J` is the
 side in place of the reactions).  The electrostatic integrands themselves (`Model/PostIntE.lean`: element field as
 `getElementD` accumulates it, stored `D`, recovered `E`, energy / area / volume contributions) are compared with the values the
 real post-processor prints and proved here to be the field energy density of the element's own field (non-negative), the
-element area and volume, with the element field equal to minus the gradient of an affine potential.
+element area and volume, with the element field equal to minus the gradient of an affine potential.  The heat-flow integrands
+(`Model/PostIntH.lean`: conductivity pair `GetK`, element mean, stored flux density, recovered gradient, averages divided by the
+selected volume with the complex division of the C++) are tied the same way; proved: flux density = conductivity × gradient per
+component, the recovered gradient is the gradient, an average times the volume is the volume integral.
 -/
 open Finset
 namespace XfemmVerif.C13
@@ -162,5 +167,47 @@ theorem elemE_affine (lc a b c : β) (t : Tri β) (hlc : lc ≠ 0)
     rw [this, neg_div, neg_div, mul_comm c da, mul_div_mul_left _ _ hda]
 
 end Integrands
+
+/-! ### the heat-flow integrands (`Model/PostIntH.lean`, compared with the values the real post-processor prints) -/
+section HeatIntegrands
+open XfemmVerif XfemmVerif.PostIntE XfemmVerif.PostIntH
+set_option linter.unusedSectionVars false
+variable {K : Type} [Field K] [LinearOrder K] [IsStrictOrderedRing K] [AbsGt K] [LawfulAbsGt K]
+
+/-- without a table the conductivity pair is `(kx, ky)` -/
+theorem getKc_constant (kx ky t : K) : getKc { kx := kx, ky := ky, tab := [] } t = ⟨kx, ky⟩ := by
+  simp [getKc, Cx.radd, Cx.mulR, Cx.I]
+
+/-- an element at one temperature has that mean temperature, and the mean conductivity pair of a constant material is the pair -/
+theorem elemT_uniform (t : Tri K) (T : K) (h0 : t.v0 = T) (h1 : t.v1 = T) (h2 : t.v2 = T) : elemT t = T := by
+  simp only [elemT, h0, h1, h2]; ring
+theorem elemK_constant (kx ky : K) (t : Tri K) : elemK { kx := kx, ky := ky, tab := [] } t = ⟨kx, ky⟩ := by
+  simp only [elemK, getKc_constant]
+  apply Cx.ext' <;> simp [Cx.divR] <;> ring
+
+/-- **the stored flux density is conductivity times gradient, component by component** -/
+theorem heat_elemD_eq (kn : Cx K) (e : K × K) : PostIntH.elemD kn e = ⟨e.1 * kn.re, e.2 * kn.im⟩ := by
+  simp [PostIntH.elemD, Cx.radd, Cx.mulR, Cx.divR, Cx.I]
+
+/-- **the gradient recovered from the stored flux density is the gradient** (non-zero conductivities) -/
+theorem fieldFromD_elemD (kn : Cx K) (e : K × K) (hx : kn.re ≠ 0) (hy : kn.im ≠ 0) :
+    PostIntH.fieldFromD kn (PostIntH.elemD kn e) = (⟨e.1, e.2⟩ : Cx K) := by
+  rw [heat_elemD_eq]
+  simp [PostIntH.fieldFromD, Cx.radd, Cx.mulR, Cx.divR, Cx.I, hx, hy]
+
+/-- area and volume integrands are the element area and volume, as for electrostatics -/
+theorem heat_area_contribution (axi : Bool) (depth pi lc : K) (m : HMat K) (t : Tri K) :
+    PostIntH.contribution 1 axi depth pi lc m t = ⟨elmArea t * (lc * lc), 0⟩ := rfl
+theorem heat_volume_contribution (axi : Bool) (depth pi lc : K) (m : HMat K) (t : Tri K) :
+    PostIntH.contribution 2 axi depth pi lc m t = ⟨elmArea t * (lc * lc) * volFactor axi depth pi lc t, 0⟩ := rfl
+
+/-- **an average is the volume integral divided by the volume**: the complex division of the C++ gives back the integral when
+    multiplied by the (non-zero) selected volume -/
+theorem average_times_volume (typ : Nat) (h : typ = 0 ∨ typ = 3 ∨ typ = 4) (z vol : Cx K) (hv : vol ≠ 0) :
+    PostIntH.finish typ z vol * vol = z := by
+  simp only [PostIntH.finish, h, if_true]
+  exact Cx.div_mul_cancel' z vol hv
+
+end HeatIntegrands
 
 end XfemmVerif.C13
